@@ -177,3 +177,21 @@ impl<B, S: AsMut<Vec<i64>>> Wnaf<usize, B, S> {
         wnaf_exp(self.base.as_ref(), self.scalar.as_mut())
     }
 }
+
+/// Verification hooks: public wrappers around the crate-private wNAF primitives.
+#[cfg(feature = "verif-hooks")]
+pub mod verif {
+    use super::{CurveProjective, PrimeFieldRepr};
+
+    pub fn wnaf_table<G: CurveProjective>(table: &mut Vec<G>, base: G, window: usize) {
+        super::wnaf_table(table, base, window)
+    }
+
+    pub fn wnaf_form<S: PrimeFieldRepr>(wnaf: &mut Vec<i64>, c: S, window: usize) {
+        super::wnaf_form(wnaf, c, window)
+    }
+
+    pub fn wnaf_exp<G: CurveProjective>(table: &[G], wnaf: &[i64]) -> G {
+        super::wnaf_exp(table, wnaf)
+    }
+}
